@@ -308,6 +308,7 @@ Proof.
   - (* ZADD *) unfold h_zadd in H'.
     destruct ((nparts parts <? 4) || negb (nparts parts mod 2 =? 0)); [inversion H'; subst; exact D|].
     destruct (nth_error parts 1) as [[]|]; try (inversion H'; subst; exact D).
+    destruct (nan_refused && negb (zadd_valid parts oracle 2 (skipn 2 parts))); [inversion H'; subst; exact D|].
     pose proof (zadd_pairs_zok b parts oracle O (length (skipn 2 parts)) (skipn 2 parts) (le_n _) d 2%nat 0 D) as Z.
     rewrite H' in Z. exact Z.
   - (* ZREM *) unfold h_zrem in H'. destruct (nparts parts <? 3); [inversion H'; subst; exact D|].
@@ -336,7 +337,7 @@ Proof.
     + assert (db_zok d1) as D1.
       { eapply eng_zincrby_zok; [exact D| |intros x Hx; apply (O 4%nat); exact Hx|exact E].
         apply (O 2%nat). apply float_arg_oscore in F. exact F. }
-      inversion H'; subst; assumption.
+      destruct nan_refused; inversion H'; subst; assumption.
   - (* ZPOPMIN *) unfold h_zpop in H'.
     destruct ((nparts parts <? 2) || (3 <? nparts parts)); [inversion H'; subst; exact D|].
     destruct (nth_arg parts 1) as [key|]; [|inversion H'; subst; exact D].
@@ -508,6 +509,7 @@ Proof.
     cbn [Z.ltb Z.compare Pos.compare Pos.compare_cont orb negb] in H'.
     change ((4 mod 2 =? 0)) with true in H'. cbn [negb] in H'.
     destruct (nth_error parts 1) as [[]|]; try (inversion H'; subst; reflexivity).
+    destruct (nan_refused && negb (zadd_valid parts oracle 2 (skipn 2 parts))); [inversion H'; subst; reflexivity|].
     assert (L : length parts = 4%nat) by (unfold nparts, len in A; lia).
     destruct parts as [|p0 [|p1 [|p2 [|p3 [|p4 ps]]]]]; cbn in L; try lia.
     cbn [skipn zadd_pairs] in H'.
@@ -543,7 +545,8 @@ Proof.
     destruct (nan_refused && f_is_nan inc); [inversion H'; subst; reflexivity|].
     destruct (eng_zincrby d key m inc (oscore oracle 4)) as [[[v|] d1]|] eqn:E; [| |inversion H'; subst; reflexivity].
     + destruct (nan_refused && f_is_nan v); inversion H'; subst; [reflexivity|discriminate].
-    + inversion H'; subst. intros _. revert E. unfold eng_zincrby.
+    + destruct nan_refused; [inversion H'; subst; reflexivity|].
+      inversion H'; subst. intros _. revert E. unfold eng_zincrby.
       destruct (get_entry d key) as [e|].
       * destruct (e_val e) as [?|?|?|?|zz|?]; try discriminate.
         destruct (match sl_get_score (z2sl zz) m with Some _ => oscore oracle 4 | None => Some inc end) as [nv|].
